@@ -227,8 +227,17 @@ func C19(r *core.Run) int {
 				}
 				userBefore := snapshotUser(d)
 				failed := false
+				// every third history names the directory through a symbolic link (no
+				// trailing slash), as a checkout under a linked workspace would
+				outArg := d
+				if hi%3 == 1 {
+					link := d + "-link"
+					if os.Symlink(d, link) == nil {
+						outArg = link
+					}
+				}
 				for _, inv := range h {
-					out, err := core.RunCmd(r.Scratch, time.Minute, nil, cli, args(inv, d)...)
+					out, err := core.RunCmd(r.Scratch, time.Minute, nil, cli, args(inv, outArg)...)
 					if err != nil {
 						r.Report(core.Violation{Case: hid, Class: "invocation-failed", Message: core.Trunc(out, 200), Input: hid})
 						failed = true
